@@ -398,3 +398,7 @@ mod tests {
         }
     }
 }
+
+#[cfg(all(test, feature = "pendulum_project_ntpd_rs_verif"))]
+#[path = "../../../../../verif/harness/ntp_proto/packet_v5_server_reference_id.rs"]
+mod verif_packet_v5_server_reference_id;
